@@ -720,3 +720,25 @@ func (p *Pool) Put(v interface{}) {
 	t.vc[t.ID]++
 	s.yield("Pool.Put")
 }
+
+// ChanOp is placed in front of a non-blocking select on a real channel: a yield point plus a conservative
+// two-way synchronisation edge on the channel (like a lock handed over at every operation).
+func ChanOp(ch interface{}, site string) {
+	s, t := sim()
+	if s == nil {
+		return
+	}
+	v := reflect.ValueOf(ch)
+	if v.Kind() != reflect.Chan || v.IsNil() {
+		return
+	}
+	s.yield("chan " + site)
+	a := s.atom(v.Pointer())
+	if a.vc != nil {
+		join(t.vc, a.vc)
+	} else {
+		a.vc = make([]uint32, len(t.vc))
+	}
+	join(a.vc, t.vc)
+	t.vc[t.ID]++
+}
